@@ -326,7 +326,12 @@ func pathOfD(v ssa.Value, d int) string {
 				if !r.escaped && !r.zero && len(r.vals) == 1 {
 					return pathOfD(r.vals[0], d+1)
 				}
-				return allocName(a)
+				// a variable captured by a closure (or otherwise address-taken): all loads denote the
+				// variable as long as it is assigned exactly once
+				if a.Comment != "" && storeCount(a) == 1 {
+					return a.Comment
+				}
+				return allocName(a) + "@" + x.Name()
 			}
 			return pathOfD(x.X, d+1)
 		}
@@ -361,6 +366,36 @@ func pathOfD(v ssa.Value, d int) string {
 		return "call:" + shortCallee(x) + "@" + x.Name()
 	}
 	return v.Name()
+}
+
+// storeCount counts the stores to a local variable in its function and in nested closures.
+func storeCount(a *ssa.Alloc) int {
+	n := 0
+	for _, r := range *a.Referrers() {
+		if st, ok := r.(*ssa.Store); ok && st.Addr == ssa.Value(a) {
+			n++
+		}
+	}
+	var inClosures func(fn *ssa.Function)
+	inClosures = func(fn *ssa.Function) {
+		for _, af := range fn.AnonFuncs {
+			for _, fv := range af.FreeVars {
+				if fv.Name() != a.Comment {
+					continue
+				}
+				for _, r := range *fv.Referrers() {
+					if st, ok := r.(*ssa.Store); ok && st.Addr == ssa.Value(fv) {
+						n++
+					}
+				}
+			}
+			inClosures(af)
+		}
+	}
+	if a.Parent() != nil {
+		inClosures(a.Parent())
+	}
+	return n
 }
 
 func allocName(a *ssa.Alloc) string {
